@@ -117,7 +117,11 @@ PRIOR = ["absent", "complete", "other-version", "other-data", "meta-missing", "m
          "stale-wrong-hash", "stale-no-hash", "stale-null-hash",
          # an index that opens and holds an EARLIER GENERATION of the data (a withdrawn constant, a
          # revised one), under metadata of this version with another data hash / of another version
-         "olddocs-wrong-hash", "olddocs-other-version", "olddocs-no-hash"]
+         "olddocs-wrong-hash", "olddocs-other-version", "olddocs-no-hash",
+         # a healthy index of ANOTHER LAYOUT (other analyzer) under metadata of another version /
+         # no metadata; and an index that still opens although segment files are gone (a removal
+         # of the old index that was interrupted), under metadata that does not vouch for it
+         "foreign-other-version", "foreign-meta-missing", "partial-meta-missing", "partial-other-version"]
 
 
 def make_prior(xdg, kind, template):
@@ -149,6 +153,22 @@ def make_prior(xdg, kind, template):
     elif kind == "index-emptied":
         for f in (facts / "index").iterdir():
             f.unlink()
+    elif kind.startswith("foreign-"):
+        subprocess.run([C.harness_bin(False), "dbforeign", str(facts / "index")], capture_output=True, text=True, timeout=120, env=C.ENV)
+        if kind == "foreign-other-version":
+            j["version"] = "0.0.3"
+            meta.write_text(json.dumps(j))
+        else:
+            meta.unlink()
+    elif kind.startswith("partial-"):
+        for f in (facts / "index").iterdir():
+            if f.suffix in (".term", ".idx", ".pos"):
+                f.unlink()
+        if kind == "partial-other-version":
+            j["version"] = "0.0.4"
+            meta.write_text(json.dumps(j))
+        else:
+            meta.unlink()
     elif kind.startswith("olddocs-"):
         subprocess.run([C.harness_bin(False), "dbstale", str(facts / "index")], capture_output=True, text=True, timeout=120, env=C.ENV)
         if kind == "olddocs-wrong-hash":
